@@ -3,6 +3,7 @@
 // Wide outputs go to exact-size buffers (in characters), so bytes-for-characters slips overflow or under-fill.
 #include "vf_obj.hpp"
 #include "vf_gen.hpp"
+#include <climits>
 
 using namespace vf;
 namespace {
@@ -37,6 +38,13 @@ template <class X> Str do_ops(const Str& a, const Str& b, unsigned mask, int fla
     { UriBox<X> D; int rc; { LibScope ls; rc = X::AddBaseUriEx(&D.u, &A.u, &B.u, flag ? URI_RESOLVE_IDENTICAL_SCHEME_COMPAT : URI_RESOLVE_STRICTLY); } D.live = rc == 0; Str t; if (D.live) D.str(&t); out += fmt("addbase rc=%d text=%s;", rc, escv(t).c_str()); }
     { UriBox<X> D; int rc; { LibScope ls; rc = X::RemoveBaseUri(&D.u, &A.u, &B.u, flag); } D.live = rc == 0; Str t; if (D.live) D.str(&t); out += fmt("removebase rc=%d text=%s;", rc, escv(t).c_str()); }
     { int e; { LibScope ls; e = X::EqualsUri(&A.u, &B.u); } out += fmt("equals=%d;", e); }
+    // the plain (non-Ex) wrappers, and a stated capacity far above the need ("no limit"): the block holds required+1 characters
+    { UriBox<X> D; int rc; { LibScope ls; rc = X::AddBaseUri(&D.u, &A.u, &B.u); } D.live = rc == 0; Str t; if (D.live) D.str(&t); out += fmt("addbase-plain rc=%d text=%s;", rc, escv(t).c_str()); }
+    { UriBox<X> C; C.parse(a); int rc; { LibScope ls; rc = X::NormalizeSyntax(&C.u); } Str t; C.str(&t); out += fmt("normalize-plain rc=%d text=%s;", rc, escv(t).c_str()); }
+    { int req = -1, rc; { LibScope ls; rc = X::ToStringCharsRequired(&A.u, &req); }
+      if (rc == 0 && req >= 0) { typedef typename X::Char Char; static const int CAPS[] = {INT_MAX, INT_MAX / 2, INT_MAX / 4 + 1, INT_MAX / 4, 1 << 20};
+          Char* o = (Char*)reserve_block((size_t)INT_MAX * sizeof(Char));
+          if (o) for (int cap : CAPS) { int wr = -7; o[0] = 0; { LibScope ls; rc = X::ToString(o, &A.u, cap, &wr); } out += fmt("tostring-cap%d rc=%d written=%d len=%zu;", cap, rc, wr, rc == 0 ? xstrlen<X>(o) : (size_t)0); } } }
     { UriBox<X> C; C.parse(a); int rc = C.make_owner(); Str t; C.str(&t); out += fmt("makeowner rc=%d text=%s;", rc, escv(t).c_str()); rc = C.normalize(mask); C.str(&t); out += fmt("normalize-owned rc=%d text=%s;", rc, escv(t).c_str()); }
     { int rc = A.normalize(mask); Str t; A.str(&t); unsigned m2; { LibScope ls; m2 = X::NormalizeSyntaxMaskRequired(&A.u); } out += fmt("normalize rc=%d text=%s mask-after=0x%x;", rc, escv(t).c_str(), m2); }
     return out;
@@ -47,6 +55,20 @@ template <class X> Str do_strings(const Str& s, int plus, int nb, int br) {
     typename X::S w = widen<X>(s);
     { size_t bound = (nb ? 6 : 3) * s.size() + 1; Char* o = (Char*)malloc(bound * sizeof(Char)); Char* e; { LibScope ls; e = X::EscapeEx(w.data(), w.data() + w.size(), o, plus, nb); } out += fmt("escape off=%ld text=%s;", e ? (long)(e - o) : -1L, e ? escv(narrow<X>(o, e)).c_str() : ""); free(o); }
     { Char* io = (Char*)malloc((s.size() + 1) * sizeof(Char)); for (size_t i = 0; i < s.size(); i++) io[i] = w[i]; io[s.size()] = 0; const Char* e; { LibScope ls; e = X::UnescapeInPlaceEx(io, plus, (UriBreakConversion)br); } out += fmt("unescape off=%ld text=%s;", e ? (long)(e - io) : -1L, e ? escv(narrow<X>(io, e)).c_str() : ""); free(io); }
+    // the plain (non-Ex) wrappers: same text, default options
+    { size_t bound = (nb ? 6 : 3) * s.size() + 1; Char* o = (Char*)malloc(bound * sizeof(Char)); Char* e; { LibScope ls; e = X::Escape(w.c_str(), o, plus, nb); } out += fmt("escape-plain off=%ld text=%s;", e ? (long)(e - o) : -1L, e ? escv(narrow<X>(o, e)).c_str() : ""); free(o); }
+    { Char* io = (Char*)malloc((s.size() + 1) * sizeof(Char)); for (size_t i = 0; i < s.size(); i++) io[i] = w[i]; io[s.size()] = 0; const Char* e; { LibScope ls; e = X::UnescapeInPlace(io); } out += fmt("unescape-plain off=%ld text=%s;", e ? (long)(e - io) : -1L, e ? escv(narrow<X>(io, e)).c_str() : ""); free(io); }
+    {
+        typename X::QList* list = nullptr; int count = -1; int rc; { LibScope ls; rc = X::DissectQueryMalloc(&list, &count, w.data(), w.data() + w.size()); }
+        out += fmt("dissect-plain rc=%d count=%d;plain-items=", rc, count);
+        if (rc == 0 && list) {
+            for (auto* l = list; l; l = l->next) out += "(" + escv(narrow<X>(l->key, l->key + xstrlen<X>(l->key))) + "=" + (l->value ? escv(narrow<X>(l->value, l->value + xstrlen<X>(l->value))) : Str("<null>")) + ")";
+            int req = -1; { LibScope ls; rc = X::ComposeQueryCharsRequired(list, &req); } out += fmt(";required-plain rc=%d %d;", rc, req);
+            if (req >= 0) { Char* o = (Char*)malloc(((size_t)req + 1) * sizeof(Char)); int wr = -1; { LibScope ls; rc = X::ComposeQuery(o, list, req + 1, &wr); } out += fmt("compose-plain rc=%d written=%d text=%s;", rc, wr, rc == 0 ? escv(narrow<X>(o, o + xstrlen<X>(o))).c_str() : ""); free(o); }
+            Char* m = nullptr; { LibScope ls; rc = X::ComposeQueryMalloc(&m, list); } out += fmt("composemalloc-plain rc=%d text=%s;", rc, rc == 0 ? escv(narrow<X>(m, m + xstrlen<X>(m))).c_str() : ""); if (rc == 0) free(m);
+        }
+        { LibScope ls; X::FreeQueryList(list); }
+    }
     // filename functions: exact documented sizes
     {
         std::vector<Char> name(w.begin(), w.end()); name.push_back(0); size_t n = s.size();
@@ -105,7 +127,13 @@ static void run_case(Ctx& c, uint64_t idx) {
         if (idx % 30000 == 0) c.sample("parse", esc(s));
         break; }
     case 1: {
-        UriGenOpts o; o.dotHeavy = r.coin(); o.maxSegs = 6; Str a = gen_uri(r, o), b = r.coin() ? gen_abs_base(r) : gen_uri(r, o); unsigned mask = r.chance(1, 3) ? 63u : r.below(64); int flag = (int)r.below(2);
+        UriGenOpts o; o.dotHeavy = r.coin(); o.maxSegs = 6; Str a = gen_uri(r, o), b = r.coin() ? gen_abs_base(r) : gen_uri(r, o);
+        if (r.chance(1, 4) && !a.empty()) {      // near twins: one letter or digit differs (anywhere, often late), everything else shared -- comparisons that look at a prefix only
+            if (r.coin()) a = gen_abs_base(r) + (a.find(':') == Str::npos && a[0] != '/' ? "/" + a : Str("/x"));
+            b = a; for (int tries = 0; tries < 8; tries++) { size_t p = r.coin() ? b.size() - 1 - r.below((uint32_t)std::min<size_t>(b.size(), 6)) : r.below((uint32_t)b.size()); unsigned char ch = (unsigned char)b[p];
+                if (isalnum(ch) && (p < 2 || b[p - 1] != '%') && (p < 2 || b[p - 2] != '%')) { b[p] = (char)(isdigit(ch) ? '0' + (ch - '0' + 1) % 10 : (islower(ch) ? 'a' + (ch - 'a' + 1) % 26 : 'A' + (ch - 'A' + 1) % 26)); break; } }
+        }
+        unsigned mask = r.chance(1, 3) ? 63u : r.below(64); int flag = (int)r.below(2);
         c.note("aw ops \"" + esc(a.substr(0, 120)) + "\" \"" + esc(b.substr(0, 120)) + "\""); c.distinct(hash_str(a + "\x01" + b, 2));
         diff(c, "ops", "\"" + esc(a) + "\" , \"" + esc(b) + fmt("\" mask=0x%x flag=%d", mask, flag), do_ops<ApiA>(a, b, mask, flag), do_ops<ApiW>(a, b, mask, flag));
         if (idx % 30000 == 1) c.sample("ops", esc(a) + " , " + esc(b));
